@@ -181,6 +181,17 @@ func Sweep(cases []Case, c *report.Collector, deadline time.Time, o Opts) {
 	})
 }
 
+// SweepGroups runs E1 over lazily generated groups of cases; returns the number of cases swept.
+func SweepGroups(groups []func() []Case, c *report.Collector, deadline time.Time, o Opts) {
+	ParallelEach(len(groups), c, deadline, func(i int, l *report.Local) {
+		cases := groups[i]()
+		for j := range cases {
+			SweepCase(&cases[j], c, l, o)
+		}
+		l.Count("cases", int64(len(cases)))
+	})
+}
+
 // SweepCase runs all queries of one case.
 func SweepCase(cs *Case, c *report.Collector, l *report.Local, o Opts) {
 	w := world.Build(cs.Spec())
